@@ -101,3 +101,24 @@ CHECKS["C15"] = dict(
         dict(name="concurrent", test="TestSetConcurrent", kind="rapid", checks={"quick": 40, "thorough": 2000}, shards=4, timeout={"quick": 600, "thorough": 3000}),
     ],
 )
+
+CHECKS["C13"] = dict(
+    pkg="c13", level="exploration",
+    rule=("part unit: rapid-generated write requests of the supported commands (SET [EX|NX|PX..], GETSET, SETNX, SETEX, PSETEX, HSET, "
+          "HSETNX, HMSET with 1..4 pairs; any letter case) with values of five entropy classes (constant, short period, text-like, "
+          "incompressible, snappy-framed without our header) and lengths threshold-2..threshold+4000, 0..256 KiB, threshold 1..70000; the "
+          "real compression filter is run 1..3 times on the same request (a resend after MOVED/ASK runs the chain again); oracle: every "
+          "non-value argument untouched; each value argument is stored either unchanged or as header+stream where the stream is decoded "
+          "with the snappy library directly (not the filter) to the original and the stored form is shorter; values below the threshold "
+          "untouched; reading the stored bytes back through a fresh GET-like and an array-reply request (compression on or switched off "
+          "with the config present) returns the original. part unit-concurrent: 2..8 such cases at once (pooled writers/readers). part "
+          "banned: the six commands documented as disabled are stopped with an error iff compression is enabled. Non-trivial: some value "
+          "was actually stored compressed; distinct by canonical JSON of the request."),
+    assumptions=["values that themselves start with the magic number '(P$' are excluded by construction (the statement excludes them)",
+                 "the snappy library (github.com/golang/snappy) is trusted as the decoder of the stored stream"],
+    parts=[
+        dict(name="unit", test="TestUnit", kind="rapid", checks={"quick": 1500, "thorough": 60000}, shards=16, timeout={"quick": 600, "thorough": 3000}),
+        dict(name="unit-concurrent", test="TestUnitConcurrent", kind="rapid", checks={"quick": 150, "thorough": 6000}, shards=4, timeout={"quick": 600, "thorough": 3000}),
+        dict(name="banned", test="TestBanned", kind="rapid", checks={"quick": 500, "thorough": 5000}, shards=1),
+    ],
+)
